@@ -99,6 +99,7 @@ fn judge(rep: &mut Report, spec: &ObjSpec, container: &str, fmt: &str, field: &s
 }
 
 /// `codec <table.json> <out.json> <seed> <Lmax>`
+fn rng_key32() -> Vec<u8> { (0..32u8).map(|i| i.wrapping_mul(11) | 1).collect() }
 pub fn cmd_codec(args: &[String]) {
     let table: Value = serde_json::from_str(&std::fs::read_to_string(&args[0]).unwrap()).unwrap();
     let seed: u64 = args[2].parse().unwrap();
@@ -313,6 +314,53 @@ pub fn cmd_codec(args: &[String]) {
                 }
             }
         }
+    }
+    // an object whose fixed-length field sits in a Vec holding MORE bytes than the field has (decoded from a JSON document, or
+    // from_parts): whatever its to_vec makes of it - an error, a panic, a string - it is not an encoding that opens or verifies
+    {
+        use dryoc::dryocsecretbox::DryocSecretBox as SB;
+        use dryoc::dryocbox::DryocBox as DB;
+        use dryoc::sign::SignedMessage as SM;
+        use dryoc::types::StackByteArray as St;
+        let key: [u8; 32] = rng.arr(); let nonce: [u8; 24] = rng.arr();
+        let msg = rng.bytes(33);
+        let good: SB<Vec<u8>, Vec<u8>> = SB::encrypt(&msg, &nonce, &key);
+        let (tag, data) = good.into_parts();
+        let kpa = dryoc::dryocbox::KeyPair::from_seed(&rng.arr::<32>()); let kpb = dryoc::dryocbox::KeyPair::from_seed(&rng.arr::<32>());
+        let gb: DB<Vec<u8>, Vec<u8>, Vec<u8>> = DB::encrypt(&msg, &nonce, &kpb.public_key, &kpa.secret_key).unwrap();
+        let (btag, bdata, _) = gb.into_parts();
+        let skp: dryoc::sign::SigningKeyPair<St<32>, St<64>> = dryoc::sign::SigningKeyPair::from_seed(&rng.arr::<32>());
+        let gs: SM<Vec<u8>, Vec<u8>> = skp.sign(msg.clone()).unwrap();
+        let (sig, smsg) = gs.into_parts();
+        for extra in [1usize, 7, 16] {
+            let pad = rng.bytes(extra);
+            rep.evaluations += 3;
+            let t2 = [&tag[..], &pad[..]].concat();
+            if let Ok(wire) = catch(|| SB::<Vec<u8>, Vec<u8>>::from_parts(t2.clone(), data.clone()).to_vec()) {
+                if let Ok(b) = SB::<St<16>, Vec<u8>>::from_bytes(&wire) { if b.decrypt_to_vec(&nonce, &key).is_ok() { rep.fail("DryocSecretBox<Vec,Vec>: a tag holding more than 16 bytes is truncated into a wire form that opens", json!({"extra": extra})); } }
+            }
+            let t2 = [&btag[..], &pad[..]].concat();
+            if let Ok(wire) = catch(|| DB::<Vec<u8>, Vec<u8>, Vec<u8>>::from_parts(t2.clone(), bdata.clone(), None).to_vec()) {
+                if let Ok(b) = DB::<St<32>, St<16>, Vec<u8>>::from_bytes(&wire) { if b.decrypt_to_vec(&St::<24>::from(&nonce), &kpa.public_key, &kpb.secret_key).is_ok() { rep.fail("DryocBox<Vec,Vec,Vec>: a tag holding more than 16 bytes is truncated into a wire form that opens", json!({"extra": extra})); } }
+            }
+            let s2 = [&sig[..], &pad[..]].concat();
+            if let Ok(wire) = catch(|| SM::<Vec<u8>, Vec<u8>>::from_parts(s2.clone(), smsg.clone()).to_vec()) {
+                if let Ok(b) = SM::<St<64>, Vec<u8>>::from_bytes(&wire) { if b.verify(&skp.public_key).is_ok() { rep.fail("SignedMessage<Vec,Vec>: a signature holding more than 64 bytes is truncated into a wire form that verifies", json!({"extra": extra})); } }
+            }
+        }
+    }
+    // ... and with FEWER bytes than the field has (a Vec decodes whatever count the document holds): using such an object for
+    // the operation the field is for does not succeed - no padding with whatever lies behind the bytes, in any build profile
+    {
+        let short_key: Vec<u8> = rng.bytes(31);
+        let ctx: Vec<u8> = rng.bytes(8);
+        let nonce: Vec<u8> = rng.bytes(24);
+        let msg = rng.bytes(20);
+        rep.evaluations += 4;
+        if let Ok(Ok(_)) = catch(|| dryoc::kdf::Kdf::<Vec<u8>, Vec<u8>>::from_parts(short_key.clone(), ctx.clone()).derive_subkey_to_vec(1)) { rep.fail("Kdf<Vec,Vec> with a 31-byte main key derives a subkey (padded key)", json!(null)); }
+        if let Ok(Ok(_)) = catch(|| dryoc::kdf::Kdf::<Vec<u8>, Vec<u8>>::from_parts(rng_key32(), ctx[..7].to_vec()).derive_subkey_to_vec(1)) { rep.fail("Kdf<Vec,Vec> with a 7-byte context derives a subkey (padded context)", json!(null)); }
+        if let Ok(_) = catch(|| { let b: dryoc::dryocsecretbox::DryocSecretBox<Vec<u8>, Vec<u8>> = dryoc::dryocsecretbox::DryocSecretBox::encrypt(&msg, &nonce, &short_key); b }) { rep.fail("DryocSecretBox::encrypt with a 31-byte key in a Vec produces a box (padded key)", json!(null)); }
+        if let Ok(_) = catch(|| dryoc::auth::Auth::compute_to_vec(short_key.clone(), &msg)) { rep.fail("Auth::compute_to_vec with a 31-byte key in a Vec produces a MAC (padded key)", json!(null)); }
     }
     // password-hash objects over the whole cost domain (no hashing: from_parts): to_string then from_string gives the same
     // configuration back, at and beyond the 4 GiB mark where a 32-bit byte count wraps
